@@ -134,7 +134,8 @@ def load_corpus(pid):
             cfgs = None
             if " || " in line:
                 c, line = line.split(" || ", 1)
-                cfgs = [x.strip() for x in c.split(",")]
+                # several configurations are joined by ", " (comma + blank); a configuration itself may contain commas (C05 item lists)
+                cfgs = [x.strip() for x in c.split(", ")]
             out.append(Case(line, tag="corpus", cfgs=cfgs))
     return out
 
